@@ -44,6 +44,7 @@ Ins2(op, a, b) == [op |-> op, a |-> a, b |-> b]
 \* ---- layout family ----------------------------------------------------------------------
 \* registers: 1 A(X)  2 B(Y)  3 float  4 B re-indexed onto A's Arc  5 S(X u Y)  6 A zero-padded onto S's Arc
 \*            7 S2(X u the names in neither X nor Y)  8 A zero-padded onto S2's Arc  9 A with one entry perturbed  10 a zero-derivative number listing Y
+\*            11 the float of 10's value  12 a number of 10's value listing no name  13 = 10 with derivatives -0.0
 \* (6 and 8 are the same number by name but carry different extra names with zero derivative)
 \* A written out on the list S (zero for the names A does not carry) with its LAST highest-order entry moved by 1/32:
 \* equal to A in value and in everything of lower order, different in exactly one derivative
@@ -60,6 +61,11 @@ ZeroOn(kind, Y) ==
   LET n == Len(Y) z == [i \in 1..n |-> FZ] IN
   IF kind = "D1" THEN [t |-> "D1", re |-> FOfRat(11, 8), vars |-> Y, d |-> z]
   ELSE [t |-> "D2", re |-> FOfRat(11, 8), vars |-> Y, d |-> z, d2half |-> [i \in 1..n |-> z]]
+\* the same with every derivative -0.0 (what `1.0 - c`, `-c`, `c * -1.0` leave behind): still a zero derivative
+NegZeroOn(kind, Y) ==
+  LET n == Len(Y) z == [i \in 1..n |-> FNeg(FZ)] IN
+  IF kind = "D1" THEN [t |-> "D1", re |-> FOfRat(11, 8), vars |-> Y, d |-> z]
+  ELSE [t |-> "D2", re |-> FOfRat(11, 8), vars |-> Y, d |-> z, d2half |-> [i \in 1..n |-> z]]
 LayoutProg(kind, X, Y) ==
   LET leaves == << Leaf(kind, 1, FOfRat(7, 4), X), Leaf(kind, 2, FOfRat(5, 4), Y), LeafF(FOfRat(5, 2)),
                    LeafFrom(kind, 2, FOfRat(5, 4), Y, 1), Leaf(kind, 3, FOfRat(9, 8), UnionList(X, Y)),
@@ -67,7 +73,10 @@ LayoutProg(kind, X, Y) ==
                    Leaf(kind, 4, FOfRat(13, 8), UnionList(X, SetToSeq(Names \ (SetOf(X) \cup SetOf(Y))))),
                    LeafFrom(kind, 1, FOfRat(7, 4), X, 7),
                    Perturbed(kind, X, UnionList(X, Y)),
-                   ZeroOn(kind, Y) >>
+                   ZeroOn(kind, Y),
+                   \* 11 the float with 10's value, 12 a number of 10's value that lists NO name, 13 = 10 with -0.0 derivatives:
+                   \* 10 .. 13 are all the same number ("a missing variable and a zero derivative are the same thing")
+                   LeafF(FOfRat(11, 8)), Leaf(kind, 5, FOfRat(11, 8), <<>>), NegZeroOn(kind, Y) >>
       pairs == {<<1, 2>>, <<2, 1>>, <<1, 4>>, <<4, 1>>, <<6, 2>>, <<2, 6>>, <<1, 3>>, <<3, 1>>}
       arith == {Bin(op, p[1], p[2], f) : op \in BinOps, p \in pairs, f \in Forms}
                \cup {Bin(op, p[1], p[2], <<"r", "r">>) : op \in BinOps, p \in {<<6, 8>>, <<8, 6>>, <<8, 2>>, <<2, 8>>}}
@@ -75,6 +84,8 @@ LayoutProg(kind, X, Y) ==
       dd == {<<1, 2>>, <<2, 1>>, <<1, 4>>, <<4, 1>>, <<6, 2>>, <<2, 6>>, <<1, 6>>, <<6, 1>>, <<1, 1>>, <<6, 8>>, <<8, 6>>, <<8, 2>>}
       rel == {Ins2(op, p[1], p[2]) : op \in {"eq", "ne", "vars_cmp", "ptr_eq", "to_new_vars", "union_l", "union_r"}, p \in dd}
              \cup {Ins2(op, p[1], p[2]) : op \in {"eq", "ne"}, p \in {<<1, 3>>, <<3, 1>>}}
+             \cup {Ins2(op, p[1], p[2]) : op \in {"eq", "ne"}, p \in {<<10, 11>>, <<11, 10>>, <<10, 12>>, <<12, 10>>, <<13, 10>>, <<10, 13>>,
+                                                                      <<13, 11>>, <<11, 13>>, <<13, 12>>, <<12, 13>>, <<12, 11>>, <<11, 12>>}}
              \* 9 differs from A in ONE highest-order entry only, on lists aligned (6) and not aligned (1, 8) with its own
              \cup {Ins2(op, p[1], p[2]) : op \in {"eq", "ne"}, p \in {<<1, 9>>, <<9, 1>>, <<6, 9>>, <<9, 6>>, <<8, 9>>, <<9, 8>>}}
   IN [key |-> "layout/" \o kind \o "/" \o ToString(X) \o ToString(Y), leaves |-> leaves, code |-> SetToSeq(arith \cup rel)]
@@ -134,11 +145,15 @@ SumCritProg(kind) ==
                                  \cup {[op |-> "sum", kind |-> "N", regs |-> [i \in 1..Len(l) |-> l[i] + 5]] : l \in lists})]
 \* sign predicates exactly at zero (and at -0.0), bare and inside the container: the container must answer what the
 \* contained type answers
-\* registers: 1 F(0.0)  2 F(-0.0)  3 D1(0.0)  4 D2(0.0)  5 D1(-0.0)  6 F(1.5)   7..12 their wrap-copies
+\* registers: 1 F(0.0)  2 F(-0.0)  3 D1(0.0)  4 D2(0.0)  5 D1(-0.0)  6 F(1.5)
+\*            7 D1 and 8 D2 that are zero in value AND in every derivative while still listing names (what x - x leaves behind)
+\*            9..16 their wrap-copies
 SignZeroProg ==
-  LET leaves == << LeafF(FZ), LeafF(FNeg(FZ)), Leaf("D1", 1, FZ, <<"a">>), Leaf("D2", 2, FZ, <<"a">>), Leaf("D1", 3, FNeg(FZ), <<"a">>), LeafF(FOfRat(3, 2)) >>
-      wraps == [i \in 1..6 |-> [op |-> "wrap", a |-> i]]
-      un == {[op |-> op, a |-> a, fa |-> "r"] : op \in {"is_positive", "is_negative", "signum", "is_zero", "abs", "neg"}, a \in 1..12}
+  LET z2 == <<FZ, FZ>>
+      leaves == << LeafF(FZ), LeafF(FNeg(FZ)), Leaf("D1", 1, FZ, <<"a">>), Leaf("D2", 2, FZ, <<"a">>), Leaf("D1", 3, FNeg(FZ), <<"a">>), LeafF(FOfRat(3, 2)),
+                   [t |-> "D1", re |-> FZ, vars |-> <<"a", "b">>, d |-> z2], [t |-> "D2", re |-> FZ, vars |-> <<"a", "b">>, d |-> z2, d2half |-> <<z2, z2>>] >>
+      wraps == [i \in 1..8 |-> [op |-> "wrap", a |-> i]]
+      un == {[op |-> op, a |-> a, fa |-> "r"] : op \in {"is_positive", "is_negative", "signum", "is_zero", "abs", "neg"}, a \in 1..16}
   IN [key |-> "kinds/signzero", leaves |-> leaves, code |-> wraps \o SetToSeq(un)]
 
 \* equality across kinds where everything of lower order coincides: a second-order number with ZERO gradient and a
@@ -157,7 +172,20 @@ EqZeroProg(X) ==
                 <<5, 6>>, <<6, 5>>, <<5, 8>>, <<8, 5>>, <<6, 8>>, <<8, 6>>, <<5, 7>>, <<7, 5>>,          \* container with container
                 <<1, 6>>, <<6, 1>>, <<1, 8>>, <<8, 1>>, <<1, 7>>, <<7, 1>>}                              \* bare float with container
   IN [key |-> "kinds/eqzero/" \o ToString(X), leaves |-> leaves, code |-> wraps \o SetToSeq({Ins2(op, p[1], p[2]) : op \in {"eq", "ne"}, p \in pairs})]
-KindProgs == {SignZeroProg} \cup {EqZeroProg(X) : X \in {<<"a">>, <<"a", "b">>}} \cup {KindProgV(X, Y, c) : X \in {<<"a", "b">>, <<>>}, Y \in {<<"a", "b">>, <<"b", "c">>, <<"b", "a">>}, c \in BOOLEAN}
+\* remainders of NEGATIVE dividends (truncated, not floored: -7.5 % 2 = -1.5), container against raw float in both
+\* positions, container against container, and the bare twins
+\* registers: 1 F(-15/2) 2 D1(-15/2) 3 D2(-15/2) 4 F(2) 5 F(-2) 6 D1(2) 7 D2(2); 8..14 their wrap-copies
+NegRemProg ==
+  LET X == <<"a", "b">>
+      leaves == << LeafF(FOfRat(-15, 2)), Leaf("D1", 1, FOfRat(-15, 2), X), Leaf("D2", 2, FOfRat(-15, 2), X), LeafF(FOfInt(2)), LeafF(FOfInt(-2)),
+                   Leaf("D1", 3, FOfInt(2), X), Leaf("D2", 4, FOfInt(2), X) >>
+      wraps == [i \in 1..7 |-> [op |-> "wrap", a |-> i]]
+      code == {Bin("rem", a, b, f) : a \in {8, 9, 10}, b \in {4, 5}, f \in Forms} \cup {Bin("rem", b, a, f) : a \in {8, 9, 10, 13, 14}, b \in {1, 4, 5}, f \in Forms}
+              \cup {Bin("rem", a, b, f) : a \in {8, 9, 10}, b \in {11, 12}, f \in {<<"r", "r">>, <<"v", "v">>}}
+              \cup {Bin("rem", 9, 13, <<"r", "r">>), Bin("rem", 10, 14, <<"r", "r">>), Bin("rem", 8, 13, <<"r", "r">>), Bin("rem", 8, 14, <<"v", "v">>)}
+              \cup {Bin("rem", a, b, <<"r", "r">>) : a \in {1, 2, 3}, b \in {4, 5}} \cup {Bin("rem", 2, 6, <<"r", "r">>), Bin("rem", 3, 7, <<"r", "r">>), Bin("rem", 1, 6, <<"r", "r">>), Bin("rem", 1, 7, <<"r", "r">>)}
+  IN [key |-> "kinds/negrem", leaves |-> leaves, code |-> wraps \o SetToSeq(code)]
+KindProgs == {SignZeroProg, NegRemProg} \cup {EqZeroProg(X) : X \in {<<"a">>, <<"a", "b">>}} \cup {KindProgV(X, Y, c) : X \in {<<"a", "b">>, <<>>}, Y \in {<<"a", "b">>, <<"b", "c">>, <<"b", "a">>}, c \in BOOLEAN}
 
 \* ---- order family (C19) ----------------------------------------------------------------------
 Vals == {FOfRat(-5, 2), FOfInt(-1), FOfRat(-3, 4), FOfRat(3, 4), FOfInt(1), FOfRat(5, 2)}
@@ -174,6 +202,19 @@ OrderProg(kind, va, vb, X, Y) ==
       sums == {[op |-> "sum", kind |-> kind, regs |-> r] : r \in {<<>>, <<1>>, <<1, 2>>, <<2, 1, 2>>, <<1, 2, 1, 2>>}}
   IN [key |-> "order/" \o kind \o "/" \o FStr(va) \o "/" \o FStr(vb) \o ToString(X) \o ToString(Y), leaves |-> leaves,
       code |-> pre \o SetToSeq(cmp \cup rem \cup un \cup ident \cup sums)]
+\* comparisons where a value is NaN: every ordering is false and != is true, as for floats - through the core operators
+\* (bare and wrapped, number / float in both positions) and through the Python-facing comparison methods
+\* registers: 1 kind(NaN)  2 kind(1)  3 F(NaN)  4 F(1); 5..8 their wrap-copies
+NanProg(kind) ==
+  LET nan == FOfStr("NaN")
+      leaves == << Leaf(kind, 1, nan, <<"a">>), Leaf(kind, 2, FOfInt(1), <<"a">>), LeafF(nan), LeafF(FOfInt(1)) >>
+      wraps == [i \in 1..4 |-> [op |-> "wrap", a |-> i]]
+      cmp == {Ins2(op, a, b) : op \in {"lt", "le", "gt", "ge", "eq", "ne"}, a \in 1..4, b \in 1..4}
+             \cup {Ins2(op, a, b) : op \in {"lt", "le", "gt", "ge", "eq", "ne"}, a \in 5..8, b \in 5..8}
+             \cup {Ins2(op, a, b) : op \in {"lt", "le", "gt", "ge", "eq", "ne"}, a \in 5..8, b \in {3, 4}}
+             \cup {Ins2(op, a, b) : op \in {"lt", "le", "gt", "ge", "eq", "ne"}, a \in {3, 4}, b \in 5..8}
+      py == {[op |-> "py", name |-> n, a |-> a, b |-> b] : n \in {"__eq__", "__lt__", "__le__", "__gt__", "__ge__"}, a \in {1, 2}, b \in 1..4}
+  IN [key |-> "order/nan/" \o kind, leaves |-> leaves, code |-> wraps \o SetToSeq(cmp \cup py)]
 OrderLayouts == {<<<<"a", "b">>, <<"a", "b">>>>, <<<<"a", "b">>, <<"b", "a">>>>, <<<<"a">>, <<"b", "c">>>>, <<<<"a", "b", "c">>, <<"b">>>>, <<<<>>, <<"a">>>>}
 \* quotients beyond the 32-bit integers (a truncation done through an integer cast saturates there)
 Big == FMul(FOfInt(100000), FOfInt(100000))
@@ -208,8 +249,28 @@ PyProg(X, Y, neg) ==
       code |-> pre \o SetToSeq(bin \cup un \cup coreok \cup new \cup ord)]
 PyProgs == {PyProg(X, Y, n) : X \in {<<"a", "b">>, <<>>}, Y \in {<<"a", "b">>, <<"b", "c">>, <<"b", "a">>}, n \in BOOLEAN}
 
+\* ---- tails family: the far ends of the differentiable domain (C01 / C02) ---------------------------------
+\* probabilities down to 1e-300 and up to the last double below 1 for the quantile, arguments out to +-8.4 for the
+\* normal cdf, +-19 for exp, 1e-5 for log; bare (both operand forms) and inside the container
+TailProg(kind) ==
+  LET ps == << FOfStr("1e-17"), FOfStr("1e-20"), FOfStr("1e-100"), FOfStr("1e-5"), FOfStr("0.999999"), FOfStr("0.9999999999999999"),
+               FOfStr("1e-3"), FOfStr("0.5") >> \o (IF kind = "D1" THEN << FOfStr("1e-300") >> ELSE << >>)
+      xs == << FOfRat(-42, 5), FOfRat(-8, 1), FOfRat(8, 1), FOfRat(-19, 1), FOfRat(19, 1), FOfStr("1e-5") >>
+      np == Len(ps) nx == Len(xs)
+      leaves == [i \in 1..np |-> Leaf(kind, 1 + (i % 4), ps[i], <<"a", "b">>)] \o [i \in 1..nx |-> Leaf(kind, 1 + (i % 4), xs[i], <<"b", "c">>)]
+                \o [i \in 1..np |-> LeafF(ps[i])]
+      nl == np + nx + np
+      wraps == [i \in 1..(np + nx) |-> [op |-> "wrap", a |-> i]]
+      un(op, a, f) == [op |-> op, a |-> a, fa |-> f, p |-> FOfRat(3, 2)]
+      code == {un("incdf", a, f) : a \in (1..np) \cup ((np + nx + 1)..nl) \cup ((nl + 1)..(nl + np)), f \in {"r", "v"}}
+              \cup {un("ncdf", a, f) : a \in {np + 1, np + 2, np + 3, nl + np + 1, nl + np + 2}, f \in {"r", "v"}}
+              \cup {un("exp", a, f) : a \in {np + 4, np + 5}, f \in {"r", "v"}}
+              \cup {un("log", a, f) : a \in {np + 6, 4}, f \in {"r", "v"}}
+  IN [key |-> "tails/" \o kind, leaves |-> leaves, code |-> wraps \o SetToSeq(code)]
+TailProgs == {TailProg("D1"), TailProg("D2")}
+
 Family == IOEnv.FAMILY
-Out == CASE Family = "layout" -> LayoutProgs [] Family = "read" -> ReadProgs [] Family = "kinds" -> KindProgs [] Family = "order" -> OrderProgs \cup {SumCritProg("D1"), SumCritProg("D2")} [] Family = "py" -> PyProgs
+Out == CASE Family = "layout" -> LayoutProgs [] Family = "read" -> ReadProgs [] Family = "kinds" -> KindProgs [] Family = "order" -> OrderProgs \cup {SumCritProg("D1"), SumCritProg("D2"), NanProg("D1"), NanProg("D2")} [] Family = "py" -> PyProgs [] Family = "tails" -> TailProgs
 ASSUME ndJsonSerialize(IOEnv.OUT, SetToSeq(Out))
 ASSUME PrintT(<<"GEN", Family, Cardinality(Out)>>)
 VARIABLE x
